@@ -168,6 +168,8 @@ def loadXb (d : Bytes) (sauce : Option (Nat × Nat)) : Res Geo :=
         let fs := if fs = 0 then xbDefaultFontSize else fs
         if fs > xbMaxFontSize then .err else do
           let flags ← rd sXb d 10
+          -- 512-character mode without a font block is rejected (x_bin.htm: the flag requires the font flag)
+          if hasFlag flags Xb.flag512 ∧ ¬ hasFlag flags Xb.flagFont then .err else do
           let o ← xbPalette d Xb.headerSize (hasFlag flags Xb.flagPalette)
           let o ← xbFonts d o fs (hasFlag flags Xb.flagFont) (hasFlag flags Xb.flag512)
           slice sXb d o d.size
@@ -364,8 +366,16 @@ def tndLoop (d : Bytes) (bw : Int) : Nat → Nat → Pos → Geo → Res Geo
         let p' ← advance sTndAdv bw p
         tndLoop d bw fuel o p' (g.setChar p.x p.y)
 
+/-- the Tundra loader's start buffer: `set_sauce`, then a SAUCE width above the `set_sauce` limit is taken as it is (the
+    width is stored nowhere else) -/
+def tndGeo (sauce : Option (Nat × Nat)) : Geo :=
+  let g0 := initGeo 80 25 tndLinesCleared sauce
+  match sauce with
+  | some (sw, _) => if sw > tndWideAbove then { g0 with bw := sw, lw := sw } else g0
+  | none => g0
+
 def loadTnd (d : Bytes) (sauce : Option (Nat × Nat)) : Res Geo :=
-  let g := initGeo 80 25 tndLinesCleared sauce
+  let g := tndGeo sauce
   if d.size < 1 + tndHeader.length then .err else do
     slice sTnd d 1 (tndHeader.length + 1)
     if !matchAt d 1 tndHeader then .err else
